@@ -1,5 +1,5 @@
 use std::fs::File;
-use std::io::{BufRead, BufReader};
+use std::io::{BufReader, Read};
 
 use rusty_common::{HasPos, Position};
 use rusty_pc::InputTrait;
@@ -34,15 +34,11 @@ impl TryFrom<File> for StringView {
     type Error = std::io::Error;
 
     fn try_from(value: File) -> Result<Self, Self::Error> {
+        // the file is not necessarily valid UTF-8 (e.g. a string literal in a DOS code page)
         let mut reader = BufReader::new(value);
-        let mut buf = String::new();
-        loop {
-            let bytes_read = reader.read_line(&mut buf)?;
-            if bytes_read == 0 {
-                break;
-            }
-        }
-        Ok(buf.into())
+        let mut bytes: Vec<u8> = vec![];
+        reader.read_to_end(&mut bytes)?;
+        Ok(String::from_utf8_lossy(&bytes).into_owned().into())
     }
 }
 
